@@ -207,4 +207,52 @@ theorem startArgs_activated (ua : Ctx) (flow : String) (n caller : Nat) :
   rw [lookup_set_ne _ _ _ _ (ne (by decide)), lookup_set_ne _ _ _ _ (ne (by decide)),
     lookup_set_ne _ _ _ _ (ne (by decide)), lookup_set_eq]
 
+/-! ### histories of `activate` calls -/
+
+/-- instance `a` runs with the values the statement gives the call `(ua, k)`: for every parameter it
+    holds exactly that value — or, when the call was attached to an activation that already ran, a
+    Python-equal one -/
+def Serves (params : List Param) (a : ActInst) (ua : Ctx) (k : Nat) : Prop :=
+  ∀ i (hi : i < params.length), ∃ v, lookup (argKey params[i].name) a.arguments = some v ∧
+    (v = specVal ua k i params[i] ∨ pyEq v (specVal ua k i params[i]) = true)
+
+theorem serves_congr (params : List Param) (a b : ActInst) (ua : Ctx) (k : Nat) (h : b.arguments = a.arguments)
+    (hs : Serves params a ua k) : Serves params b ua k := by
+  intro i hi; rw [h]; exact hs i hi
+
+theorem mem_bump : ∀ (j : Nat) (l : List ActInst) (a : ActInst), a ∈ bump j l → ∃ a0 ∈ l, a.arguments = a0.arguments
+  | _, [], a, h => by simp [bump] at h
+  | 0, b :: r, a, h => by
+    simp only [bump, List.mem_cons] at h
+    rcases h with h | h
+    · exact ⟨b, by simp, by rw [h]⟩
+    · exact ⟨a, by simp [h], rfl⟩
+  | j + 1, b :: r, a, h => by
+    simp only [bump, List.mem_cons] at h
+    rcases h with h | h
+    · exact ⟨b, by simp, by rw [h]⟩
+    · obtain ⟨a0, h0, e⟩ := mem_bump j r a h
+      exact ⟨a0, by simp [h0], e⟩
+
+theorem bump_mem : ∀ (j : Nat) (l : List ActInst) (a0 : ActInst), a0 ∈ l → ∃ a ∈ bump j l, a.arguments = a0.arguments
+  | _, [], a0, h => by simp at h
+  | 0, b :: r, a0, h => by
+    rcases List.mem_cons.1 h with h | h
+    · subst h; exact ⟨{ a0 with activated := a0.activated + 1 }, by simp [bump], rfl⟩
+    · exact ⟨a0, by simp [bump, h], rfl⟩
+  | j + 1, b :: r, a0, h => by
+    rcases List.mem_cons.1 h with h | h
+    · subst h; exact ⟨a0, by simp [bump], rfl⟩
+    · obtain ⟨a, ha, e⟩ := bump_mem j r a0 h
+      exact ⟨a, by simp [bump, ha], e⟩
+
+/-- the value a running instance holds for parameter `i` (None if it held none) -/
+def valOf (params : List Param) (a : ActInst) (i : Nat) : Val :=
+  (lookup (argKey ((params[i]?).getD ⟨"", none⟩).name) a.arguments).getD .none
+
+theorem holdsAll_valOf (params : List Param) (a : ActInst) (h : HoldsAll params a.arguments) (i : Nat) (hi : i < params.length) :
+    lookup (argKey params[i].name) a.arguments = some (valOf params a i) := by
+  obtain ⟨v, hv⟩ := Option.isSome_iff_exists.1 (h params[i] (List.getElem_mem hi))
+  simp [valOf, hi, hv]
+
 end NemoVerif.Bind
